@@ -14,10 +14,17 @@ structure FlowInfo where
   firstFromSrc : Bool
   other : Option (List CorrV) := none
   flowType : Nat
+  /-- an upper bound on the flow's active deadline: creation time, or the time of the last scan, + the active timeout -/
+  deadlineUB : Nat := 0
+  /-- the number of complete scans that found the flow certainly due (scan time >= `deadlineUB`) and still waiting -/
+  dueScans : Nat := 0
   deriving Repr, Inhabited
 
 structure Tracker where
   flows : List FlowInfo := []
+  /-- the virtual clock (`agg adv`) and the active timeout of the session (`agg new`) -/
+  now : Nat := 0
+  activeT : Nat := 0
   /-- the session left the specification's domain (a record whose template lacks elements, `omit=`):
       nothing is judged until the next session starts -/
   off : Bool := false
@@ -30,13 +37,27 @@ def Tracker.onRecord (t : Tracker) (r : InRec) : Tracker :=
   match t.find r.key with
   | none =>
     let f : FlowInfo := { key := r.key, needs := corrRequired r.flowType r.corr, first := r.corr,
-                          firstFromSrc := fromSrc r.corr, flowType := r.flowType }
+                          firstFromSrc := fromSrc r.corr, flowType := r.flowType, deadlineUB := t.now + t.activeT }
     { t with flows := t.flows ++ [f] }
   | some f =>
     -- the first record from the other node of a flow that waits for correlation correlates it
     if f.needs && f.other.isNone && corrRequired r.flowType r.corr && !sameNode r.corr f.first then
       { t with flows := t.flows.map fun g => if g.key == r.key then { g with other := some r.corr } else g }
     else t
+
+/-- "retried a bounded number of times and then dropped": an expiry scan at time `now`. `complete` = no callback can
+    fail in it, so every due item is examined. A flow that still waits for its other node and is CERTAINLY due (its active
+    deadline is at most `deadlineUB`) has been examined once more; the scan after the last retry must drop it - the
+    tracker forgets it, and a record shown for it later (with no arrival in between) is an `unknown-flow`. Whatever the
+    scan did to a waiting flow, its active deadline is at most now + the active timeout afterwards. -/
+def Tracker.onScan (t : Tracker) (complete : Bool) : Tracker :=
+  { t with flows := t.flows.filterMap fun f =>
+      if f.needs && f.other.isNone then
+        if complete && f.deadlineUB ≤ t.now then
+          if f.dueScans + 1 > Generated.cMaxRetries then none
+          else some { f with dueScans := f.dueScans + 1, deadlineUB := t.now + t.activeT }
+        else some { f with deadlineUB := t.now + t.activeT }
+      else some f }
 
 def Tracker.drop (t : Tracker) (k : Nat) : Tracker := { t with flows := t.flows.filter (·.key != k) }
 
